@@ -39,16 +39,10 @@ theorem T14_fault_reports_and_poisons (E : Env) (hQ : E.Q = {}) (p : PSt Node VH
       | ocommit oid => exact absurd (.inl (by intro n h; cases h)) hc
       | otryCommit oid => exact absurd (.inl (by intro n h; cases h)) hc
   · -- a poisoned handle issues nothing
-    cases c with
-    | rollback n =>
-      by_cases hn : n = 0
-      · subst hn; simp [runCall, rollbackP] at hfail
-      · have := (poisoned_rollback H E p n hp hn).2.1
-        simp only [runCall] at hfail; rw [this] at hfail; cases hfail
-    | commit fid => rw [(poisoned_commit H E p _ hp (by intro n h; cases h)).2.2.1] at hfail; cases hfail
-    | tryCommit fid => rw [(poisoned_commit H E p _ hp (by intro n h; cases h)).2.2.1] at hfail; cases hfail
-    | ocommit oid => rw [(poisoned_commit H E p _ hp (by intro n h; cases h)).2.2.1] at hfail; cases hfail
-    | otryCommit oid => rw [(poisoned_commit H E p _ hp (by intro n h; cases h)).2.2.1] at hfail; cases hfail
+    have hq : E.Q.rollbackPoisonLate = false := by rw [hQ]
+    by_cases h0 : c = .rollback 0
+    · subst h0; simp [runCall, rollbackP] at hfail
+    · rw [(poisoned_commit H E hq p c hp h0).2.2.1] at hfail; cases hfail
 
 
 /-- non-vacuity: a WAL write failing once during `FinishedSession::commit`; a rollback-segment append failing during
@@ -70,40 +64,61 @@ theorem T14_ok_means_nothing_failed (E : Env) (hQ : E.Q = {}) (hfin : E.finishOk
   have h := (Shape.durable H (commit_shape H E hQ (PSt.ofSt s) c rfl (.inr hfin)) (healthy_ofSt s)).2.2.2.2.1 hok
   exact ⟨h.2.1, h.1, h.2.2⟩
 
-/-- T14 **a poisoned handle refuses everything**: each of the four commits returns without `Ok` (a non-blocking one may hand the
-changeset back while sessions are alive), performs no step with an effect, issues nothing; disk, poison flag, values, root,
-rollback log, sequence number, marker and every `committed` flag are unchanged — only the consumed handle is gone. -/
-theorem T14_poisoned_refuses_everything (E : Env) (p : PSt Node VH) (c : Call) (hp : p.poisoned = true)
-    (hc : ∀ n, c ≠ .rollback n) :
+/-- T14 **a poisoned handle refuses everything**: each of the five calls (`rollback(0)`, the no-op `Ok`, aside) returns without `Ok`
+(a non-blocking commit may hand the changeset back while sessions are alive), performs no step with an effect, issues nothing;
+disk, poison flag, values, root, rollback log, sequence number, marker and every `committed` flag are unchanged — only the consumed
+handle is gone.  (`E.Q = {}`: the code as repaired for F21; before, `rollback` was the exception — counterexample below.) -/
+theorem T14_poisoned_refuses_everything (E : Env) (hQ : E.Q = {}) (p : PSt Node VH) (c : Call) (hp : p.poisoned = true)
+    (hc : c ≠ .rollback 0) :
     (runCall H E p c).res ≠ .ok ∧ noEffect (runCall H E p c).trace = true ∧ noFail (runCall H E p c).trace = true ∧
     (runCall H E p c).st.poisoned = true ∧ (runCall H E p c).st.disk = p.disk ∧
     obs (runCall H E p c).st.mem = obs p.mem ∧
     (∀ x ∈ (runCall H E p c).st.mem.ovs, x.committed = true → ∃ y ∈ p.mem.ovs, y.id = x.id ∧ y.committed = true) ∧
     ((runCall H E p c).res = .busy → (runCall H E p c).st = p) := by
-  obtain ⟨h1, h2, h3, _, h5, h6, h7, h8⟩ := poisoned_commit H E p c hp hc
+  obtain ⟨h1, h2, h3, _, h5, h6, h7, h8⟩ := poisoned_commit H E (by rw [hQ]) p c hp hc
   exact ⟨h1, h2, h3, h5, h6, h7.obs, h7.committed, h8⟩
 
-/-- T14 **`rollback` on a poisoned handle**: `Err` (for `n > 0`), nothing issued, disk / values / root / sequence number /
-marker / overlays unchanged — the in-memory rollback log is either unchanged or **shorter by `n`**: `Rollback::truncate(n)`
-runs before the poison flag is looked at (the example below shows the second case happens). -/
-theorem T14_poisoned_rollback_refused (E : Env) (p : PSt Node VH) (n : Nat) (hp : p.poisoned = true) (hn : n ≠ 0) :
+/-- T14 **`rollback` on a poisoned handle** (full strength since the repair of F21): `Err` for `n > 0`, the poison check is the only
+step after the guard, and NOTHING changes — the whole state, the in-memory rollback log included, is the state before the call;
+`rollback(0)` stays the no-op `Ok`. -/
+theorem T14_poisoned_rollback_refused (E : Env) (hQ : E.Q = {}) (p : PSt Node VH) (n : Nat) (hp : p.poisoned = true) :
+    (runCall H E p (.rollback n)).st = p ∧
+    (n ≠ 0 → (runCall H E p (.rollback n)).res = .err ∧
+             (runCall H E p (.rollback n)).trace = [.guardWrite, .poisonCheck false]) ∧
+    (n = 0 → (runCall H E p (.rollback n)).res = .ok ∧ (runCall H E p (.rollback n)).trace = []) := by
+  by_cases hn : n = 0
+  · subst hn; simp [runCall, rollbackP]
+  · simp only [runCall]
+    rw [poisoned_rollback H E (by rw [hQ]) p n hp hn]
+    simp [hn]
+
+example : (runCall Ex.HN {} Ex.pPoisoned (.commit 1)).res = .err ∧
+    (runCall Ex.HN {} Ex.pPoisoned (.otryCommit 10)).res = .err ∧
+    (runCall Ex.HN {} Ex.pPoisoned (.rollback 1)).res = .err ∧
+    (runCall Ex.HN {} Ex.pPoisoned (.rollback 1)).st.mem.log = Ex.pPoisoned.mem.log ∧ Ex.pPoisoned.mem.log.length = 1 := by decide
+
+/-- **F21, the order before the repair** (`rollbackPoisonLate`: the poison flag was looked at only by the inner commit, after
+`Rollback::truncate(n)`): `rollback(1)` on a poisoned handle returned `Err` but had emptied the in-memory rollback log (on the real
+code the session run in between could also panic in a merkle worker, the in-memory root being that of a rejected changeset) -/
+example : Ex.pPoisoned.mem.log.length = 1 ∧
+    (runCall Ex.HN { Q := { rollbackPoisonLate := true } } Ex.pPoisoned (.rollback 1)).res = .err ∧
+    (runCall Ex.HN { Q := { rollbackPoisonLate := true } } Ex.pPoisoned (.rollback 1)).st.mem.log = [] ∧
+    (runCall Ex.HN { Q := { rollbackPoisonLate := true } } Ex.pPoisoned (.rollback 1)).trace =
+      [.guardWrite, .rbTruncate, .sessionFinish true, .poisonCheck false] := by decide
+
+/-- before the repair the general statement about `rollback` on a poisoned handle was only this: everything unchanged EXCEPT that the
+in-memory log may be shorter by `n` -/
+theorem T14_poisoned_rollback_before_repair (E : Env) (hq : E.Q.rollbackPoisonLate = true) (p : PSt Node VH) (n : Nat)
+    (hp : p.poisoned = true) (hn : n ≠ 0) :
     (runCall H E p (.rollback n)).res = .err ∧ noFail (runCall H E p (.rollback n)).trace = true ∧
     (runCall H E p (.rollback n)).st.poisoned = true ∧ (runCall H E p (.rollback n)).st.disk = p.disk ∧
     ((runCall H E p (.rollback n)).st.mem = p.mem ∨
      (runCall H E p (.rollback n)).st.mem = { p.mem with log := p.mem.log.drop n }) := by
-  obtain ⟨h1, h2, _, h4, h5, h6⟩ := poisoned_rollback H E p n hp hn
+  obtain ⟨h1, h2, _, h4, h5, h6⟩ := poisoned_rollback_late H E hq p n hp hn
   refine ⟨h1, h2, h4, h5, ?_⟩
   rcases h6 with h | ⟨_, _, h⟩
   · exact .inl h
   · exact .inr h
-
-example : (runCall Ex.HN {} Ex.pPoisoned (.commit 1)).res = .err ∧
-    (runCall Ex.HN {} Ex.pPoisoned (.otryCommit 10)).res = .err ∧
-    (runCall Ex.HN {} Ex.pPoisoned (.rollback 1)).res = .err := by decide
-
-/-- observation (kernel-checked): `rollback(1)` on a poisoned handle returns `Err` but has emptied the in-memory rollback log -/
-example : Ex.pPoisoned.mem.log.length = 1 ∧ (runCall Ex.HN {} Ex.pPoisoned (.rollback 1)).res = .err ∧
-    (runCall Ex.HN {} Ex.pPoisoned (.rollback 1)).st.mem.log = [] := by decide
 
 /-- T14 **the disk after a faulted call is the state before or after it, never a mixture**, and which one is decided by
 the position of the failing operation: a failure while appending the rollback delta, in a pre-meta task or of the meta write
